@@ -403,7 +403,8 @@ func FuzzTokens(f *testing.F) {
 		if _, _, err := oracle.Parse(data); err != nil {
 			return
 		}
-		if _, fix, err := oracle.Canon(data); err != nil || !fix || gen.InKF5Class(data) || hasBuildLine(data) {
+		canon, fix, err := oracle.Canon(data)
+		if err != nil || !fix || gen.InKF5Class(data) || hasBuildLine(data) || !oracle.NodeStable(canon) {
 			return
 		}
 		h.Eval("Fuzz")
